@@ -187,19 +187,23 @@ def oneYear (ex : List (Int × Rat)) (l : List Tx) (ds : List Disposal) (y : Int
     | .error er => .error (.taxYear er)
     | .ok y' => mkSummary ex l y' sel
 
+/-- everything `calculate` does after the matcher: legs → disposals → year summaries, holdings -/
+def reportFrom (roundDp : Nat) (ex : List (Int × Rat)) (year : Option Int) (l : List Tx)
+    (rs : List TickerResult) : Except CalcErr Report :=
+  let ds := allDisposals roundDp rs
+  let ys : Except CalcErr (List YearSummary) :=
+    match year with
+    | some y => (oneYear ex l ds y).map (fun s => [s])
+    | none => allYears ex l ds
+  match ys with
+  | .error e => .error e
+  | .ok ys => .ok { years := ys, holdings := holdingsOf rs }
+
 /-- `calculate` on GBP transactions -/
 def calculate (window : Int) (roundDp : Nat) (ex : List (Int × Rat)) (year : Option Int) (l : List Tx) :
     Except CalcErr Report :=
   match run window l with
   | .error e => .error (.matcher e)
-  | .ok rs =>
-    let ds := allDisposals roundDp rs
-    let ys : Except CalcErr (List YearSummary) :=
-      match year with
-      | some y => (oneYear ex l ds y).map (fun s => [s])
-      | none => allYears ex l ds
-    match ys with
-    | .error e => .error e
-    | .ok ys => .ok { years := ys, holdings := holdingsOf rs }
+  | .ok rs => reportFrom roundDp ex year l rs
 
 end Cgt
